@@ -1,11 +1,178 @@
-/- Line-protocol driver for C20 (stub until the property's models exist). -/
-import PyIpmi.Base.Proto
-open PyIpmi.Proto
+/-
+  Line-protocol driver for C20 (command-line tool model).
 
-def handleC20 (line : String) : String :=
+  A Python `str` travels as its code points `c,c,c` (`-` = empty string).
+
+    count                          -> number of table entries
+    selftest                       -> ok | <what is inconsistent in Gen/Cli.lean>
+    name <idx>                     -> <str> of the entry's name
+    int0 <s> | int10 <s>           -> ok <int> | ValueError
+    lookup <s>*                    -> none | some <idx> <s>*
+    main <s>*                      -> exit <n> | raise <Exc> | launch <idx> a=<s;..> i=<val> o=<k=v;..> t=<val> r=<val> s=<..>
+    raw <s>*                       -> usage | req <lun> <netfn> <hex> | raise <Exc>
+    hex <hexbytes>                 -> <str>           (what `raw` prints for these reply bytes)
+    unhex <s>                      -> ok <hexbytes> | none       (Spec.parseHex)
+    exit cc <n> | exit timeout | exit kbd | exit ok | exit py <Name>
+                                   -> none | some <status> <str>
+    entry <idx> | ientry <idx>     -> ok | AttributeError <ref> | TypeError <ref>   (shipped table | intended table)
+    unresolved                     -> i:j i:j …  ( - if none)
+    chassis <word>                 -> none | some <code>   (table entry "chassis power <word>" -> method -> option)
+    speccode <word>                -> none | some <code>   (Spec table)
+    ifopts <iface s> <opts s>|L    -> ValueError | ok k=v;…
+-/
+import PyIpmi.Base.Proto
+import PyIpmi.Model.Cli
+import PyIpmi.Spec.Cli
+import PyIpmi.Gen.Cli
+open PyIpmi PyIpmi.Cli PyIpmi.Proto
+
+namespace C20
+
+def showStr (s : Str) : String := natList s
+def parseStr (t : String) : Option Str := parseNatList t
+
+def showVal : Val → String
+  | .none => "N"
+  | .bool b => if b then "B1" else "B0"
+  | .int i => s!"I{i}"
+  | .str s => "S" ++ showStr s
+  | .route a b c => s!"R{a}:{b}:{c}"
+  | .emptyList => "L"
+
+def showOVal : OVal → String
+  | .s v => "S" ++ showStr v
+  | .b v => if v then "B1" else "B0"
+
+def showDict (d : List (String × OVal)) : String :=
+  if d.isEmpty then "-" else ";".intercalate (d.map fun (k, v) => k ++ "=" ++ showOVal v)
+
+def showStrs (l : List Str) : String :=
+  if l.isEmpty then "." else ";".intercalate (l.map showStr)
+
+def showRes (pre : String) : Resolution → Nat → String
+  | .ok, _ => pre
+  | .attributeError, j => s!"AttributeError {j}"
+  | .typeError, j => s!"TypeError {j}"
+
+def entryRes (cmds : List Command) (i : Nat) : String :=
+  match cmds[i]? with
+  | none => "bad-op"
+  | some c =>
+    match (List.range c.refs.length).find? (fun j =>
+        match c.refs[j]? with | some r => !refOk Gen.Cli.api r | none => false) with
+    | none => "ok"
+    | some j => match c.refs[j]? with
+      | some r => showRes "ok" (resolveRef Gen.Cli.api r) j
+      | none => "bad-op"
+
+def chassisCode (word : String) : Option Nat := do
+  let name := ofString ("chassis power " ++ word)
+  let c ← Gen.Cli.commands.find? (fun c => c.name == name)
+  match c.refs with
+  | [r] => (Gen.Cli.chassisControl.find? (fun e => e.1 == r.name)).map (·.2)
+  | _ => none
+
+def selftest : String :=
+  if Gen.Cli.shape.defaults.length != Gen.Cli.vars.length then "defaults/vars length"
+  else if !(Gen.Cli.commands.all fun c => joinSp c.toks == c.name) then "toks/name"
+  else if !(Gen.Cli.api.all fun s => s.name < Gen.Cli.names.length) then "api name ids"
+  else "ok"
+
+def handle (line : String) : String :=
   match tokens line with
   | ["ping"] => "pong"
+  | ["count"] => toString Gen.Cli.commands.length
+  | ["selftest"] => selftest
+  | ["name", i] =>
+    match i.toNat? >>= (Gen.Cli.commands[·]?) with
+    | some c => showStr c.name
+    | none => "bad-op"
+  | ["int0", s] =>
+    match parseStr s with
+    | some s => (match pyInt0 s with | some v => s!"ok {v}" | none => "ValueError")
+    | none => "bad-op"
+  | ["int10", s] =>
+    match parseStr s with
+    | some s => (match pyInt10 s with | some v => s!"ok {v}" | none => "ValueError")
+    | none => "bad-op"
+  | "lookup" :: args =>
+    match args.mapM parseStr with
+    | none => "bad-op"
+    | some a =>
+      match lookup (nameTable Gen.Cli.commands) a with
+      | none => "none"
+      | some (i, rest) => s!"some {i} {showStrs rest}"
+  | "main" :: args =>
+    match args.mapM parseStr with
+    | none => "bad-op"
+    | some a =>
+      match mainModel Gen.Cli.shape Gen.Cli.commands Gen.Cli.interfaces a with
+      | .exit n => s!"exit {n}"
+      | .raise e => s!"raise {e}"
+      | .launch l =>
+        let sess := match l.session with
+          | none => "-"
+          | some (h, p, u, pw, lv) => s!"{showVal h}/{showVal p}/{showVal u}/{showVal pw}/{lv}"
+        s!"launch {l.entry} a={showStrs l.args} i={showVal l.iface} o={showDict l.ifaceOpts} t={showVal l.target} r={showVal l.routing} s={sess}"
+  | "raw" :: args =>
+    match args.mapM parseStr with
+    | none => "bad-op"
+    | some a =>
+      match cmdRaw a with
+      | .usage => "usage"
+      | .request lun nf bs => s!"req {lun} {nf} {toHex bs}"
+      | .raise e => s!"raise {e}"
+  | ["hex", h] =>
+    match ofHex h with
+    | some bs => showStr (printHex bs)
+    | none => "bad-op"
+  | ["unhex", s] =>
+    match parseStr s with
+    | some s => (match Spec.Cli.parseHex s with | some bs => "ok " ++ toHex bs | none => "none")
+    | none => "bad-op"
+  | "exit" :: rest =>
+    let o : Option (Outcome Unit) := match rest with
+      | ["cc", n] => n.toNat?.map .ccError
+      | ["timeout"] => some .timeoutError
+      | ["kbd"] => some (.pyError "KeyboardInterrupt")
+      | ["ok"] => some (.ok ())
+      | ["py", n] => some (.pyError n)
+      | _ => none
+    match o with
+    | none => "bad-op"
+    | some o =>
+      match exitOf Gen.Cli.exits o with
+      | none => "none"
+      | some r => s!"some {r.status} {showStr r.message}"
+  | ["entry", i] =>
+    match i.toNat? with
+    | some i => entryRes Gen.Cli.commands i
+    | none => "bad-op"
+  | ["ientry", i] =>
+    match i.toNat? with
+    | some i => entryRes (intended Gen.Cli.names Gen.Cli.commands) i
+    | none => "bad-op"
+  | ["unresolved"] =>
+    let u := unresolved Gen.Cli.api Gen.Cli.commands
+    if u.isEmpty then "-" else " ".intercalate (u.map fun (i, j) => s!"{i}:{j}")
+  | ["chassis", w] =>
+    match chassisCode w with
+    | some c => s!"some {c}"
+    | none => "none"
+  | ["speccode", w] =>
+    match Spec.Cli.chassisPower.find? (fun e => e.1 == w) with
+    | some e => s!"some {e.2.code}"
+    | none => "none"
+  | ["ifopts", i, o] =>
+    match parseStr i, (if o == "L" then some Val.emptyList else (parseStr o).map Val.str) with
+    | some i, some o =>
+      match parseInterfaceOptions i o with
+      | none => "ValueError"
+      | some d => "ok " ++ showDict d
+    | _, _ => "bad-op"
   | _ => "bad-op"
 
+end C20
+
 def main : IO Unit := do
-  loop (← IO.getStdin) (← IO.getStdout) handleC20
+  loop (← IO.getStdin) (← IO.getStdout) C20.handle
